@@ -107,6 +107,17 @@ def _inputs(ctx, plan, bases):
             for _ in range(plan["per_pos"]):
                 add(b[:i] + rng.choice(HOSTILE) + b[i + 1:], "replaced")
                 add(b[:i] + rng.choice(HOSTILE) + b[i:], "inserted")
+    # runs of bytes outside printable ASCII (a Latin-1 / UTF-8 comment or string, binary junk) on the line on which
+    # the parse then fails: bare, as a quoted string, inside a comment, and as the unterminated end of the file
+    pool = bytes(range(0x80, 0x100)) + bytes(c for c in range(1, 0x20) if c not in (10, 13))
+    for b in bases:
+        for i in range(rng.randrange(3), len(b) + 1, 3):
+            run = bytes(rng.choice(pool) for _ in range(rng.choice((9, 12, 17, 24, 25, 40))))
+            add(b[:i] + run, "binary run")
+            add(b[:i] + b'"' + run, "binary run")
+            add(b[:i] + b'"' + run + b'" ' + b[i:], "binary run")
+            add(b[:i] + b"/*" + run + b"*/" + b[i:], "binary run")
+            add(b[:i] + run + b[i:], "binary run")
     for s in STRESS:
         add(s, "stress")
     alpha, n = plan["short"]
